@@ -317,8 +317,6 @@ def expectedContextForwarding : List (String × String) := [
    "return m_xpathExecutionContextDefault.getCachedString();"),
   ("StylesheetExecutionContextDefault::releaseCachedString",
    "return m_xpathExecutionContextDefault.releaseCachedString(theString);"),
-  ("StylesheetExecutionContextDefault::getNodeSetByKey",
-   "m_xpathExecutionContextDefault.getScratchQName();"),
   ("StylesheetExecutionContextDefault::getPrefixResolver",
    "return m_xpathExecutionContextDefault.getPrefixResolver();"),
   ("StylesheetExecutionContextDefault::setPrefixResolver",
